@@ -335,6 +335,15 @@ class Patched(object):
         U.uuid = FakeUUID()
         U._get_rhsm_identity = lambda: self.rhsm
         U.get_time = lambda: "2020-01-01T00:00:00"
+        # whatever the accessor module itself asks the file system goes to the same model
+        CC = client_module()
+        # every path starts like a fresh process: plain module-level values of the accessor module (a cache a version of it may keep) are
+        # put back when the path ends
+        self.saved_plain = dict((k, v) for k, v in CC.__dict__.items() if isinstance(v, (type(None), str, int, float, bool, tuple, frozenset)) and not k.startswith("__"))
+        self.saved_cc = dict((k, CC.__dict__[k]) for k in ("os", "isfile", "open") if k in CC.__dict__)
+        fos = FakeOS(self.fs)
+        for k in self.saved_cc:
+            setattr(CC, k, {"os": fos, "isfile": fos.path.isfile, "open": U.open}[k])
         return self
 
     def __exit__(self, *a):
@@ -343,15 +352,35 @@ class Patched(object):
                 U.__dict__.pop("open", None)
             else:
                 setattr(U, k, v)
+        CC = client_module()
+        for k, v in self.saved_cc.items():
+            setattr(CC, k, v)
+        for k in [k for k, v in CC.__dict__.items() if isinstance(v, (type(None), str, int, float, bool, tuple, frozenset)) and not k.startswith("__")]:
+            if k in self.saved_plain:
+                setattr(CC, k, self.saved_plain[k])
         return False
 
 
-OPS = ["read", "regenerate", "register", "unregister", "delete-registered", "delete-unregistered"]
+OPS = ["read", "regenerate", "register", "unregister", "delete-registered", "delete-unregistered", "client-read"]
+_CC = [None]
+
+
+def client_module():
+    """insights.client.client: its get_machine_id() is the accessor the client phases read the identifier through"""
+    if _CC[0] is None:
+        from insights.client import client as CC
+        _CC[0] = CC
+    return _CC[0]
+
+
+READS = ("read", "client-read")
 
 
 def apply_op(op):
     if op == "read":
         return U.generate_machine_id()
+    if op == "client-read":
+        return client_module().get_machine_id()
     if op == "regenerate":
         return U.generate_machine_id(new=True)
     if op == "register":
@@ -380,6 +409,9 @@ def check_step(fs, op, result, before, T, state):
                 bad.append("%s wrote through a planted symlink to %s" % (op, p))
             if data is None and before["outside"].get(p) is not None:
                 bad.append("%s deleted %s, the target of a planted symlink" % (op, p))
+    label = op
+    if op == "client-read":
+        op = "read"
     if op in ("read", "regenerate"):
         if isinstance(result, SystemExit):
             return bad          # the client refuses to continue on an invalid identifier file; no identifier is returned
@@ -390,7 +422,7 @@ def check_step(fs, op, result, before, T, state):
         if not ok:
             bad.append("%s returned a non-canonical identifier %r" % (op, result))
         if op == "read" and state.get("id") is not None and state.get("persisted") and result != state["id"]:
-            bad.append("identifier changed from %r to %r without a regeneration request" % (state["id"], result))
+            bad.append("identifier changed from %r to %r without a regeneration request (%s)" % (state["id"], result, label))
         if op == "read" and before["mid_valid"]:
             wrote = [e for e in fs.log[before["loglen"]:] if e[0] in ("write", "remove") and e[1] == MID]
             if wrote:
@@ -518,6 +550,12 @@ def obligations(tier):
                    stubs=stubs, outside=["RHSM certificate parsing", "stability of the identifier when the configuration directory does not exist (write_to_disk ignores missing directories by design; "
                                          "the identifier then cannot be persisted) is reported only from the second read on with a directory present"],
                    encoded=enc[4:], budget_s=900 if thorough else 120, replay="fs", check_sample=True),
+        Obligation("O2b-identity-through-the-client-accessor", make_history(4 if thorough else 3, ["read", "client-read", "regenerate"], "identity-stable", sibling_targets=0), ["identity-stable"],
+                   desc="the same histories with reads through insights.client.client.get_machine_id() (the accessor the client phases use) mixed with direct reads and forced regenerations: "
+                        "every read, through whichever entry, returns the identifier in force",
+                   bounds={"history length": "<= %d" % (4 if thorough else 3), "operations": "read, client-read, regenerate", "initial identifier file": "as O2", "subscription identity": sorted(RHSM)},
+                   stubs=stubs + ["the names os / isfile / open of insights.client.client, where a version of it uses them, are bound to the same file-system model"],
+                   outside=["the connection / registration phases of the client (network)"], encoded=enc[5:] + [client_module().get_machine_id], budget_s=900 if thorough else 120, replay="fs", check_sample=True),
     ]
 
 
@@ -570,6 +608,15 @@ def _native(case):
                 try:
                     if op == "read":
                         res = U.generate_machine_id(destination_file=mp[MID])
+                    elif op == "client-read":
+                        CC = client_module()
+                        real_gen = CC.generate_machine_id
+                        CC.generate_machine_id = lambda *a, **k: real_gen(*a, **dict(k, destination_file=mp[MID]))
+                        constants.machine_id_file = mp[MID]
+                        try:
+                            res = CC.get_machine_id()
+                        finally:
+                            CC.generate_machine_id = real_gen
                     elif op == "regenerate":
                         res = U.generate_machine_id(new=True, destination_file=mp[MID])
                     else:
@@ -593,6 +640,8 @@ def _native(case):
                             bad.append("step %d: %s wrote through a planted symlink to %s" % (i, op, p))
                         if new is None and old is not None:
                             bad.append("step %d: %s deleted %s, the target of a planted symlink" % (i, op, p))
+                if op == "client-read":
+                    op = "read"
                 if op in ("read", "regenerate") and not isinstance(res, SystemExit):
                     try:
                         ok = canonical(res) == res
